@@ -494,9 +494,13 @@ func startWithListenerFds(cdyfile Input, inst *Instance, restartFds map[string]r
 	instancesMu.Lock()
 	instances = append(instances, inst)
 	instancesMu.Unlock()
+	// directives (such as 'on') may register event hooks while they
+	// are set up; if the start fails those hooks must not stay behind
+	oldEventHooks := cloneEventHooks()
 	var err error
 	defer func() {
 		if err != nil {
+			restoreEventHooks(oldEventHooks)
 			instancesMu.Lock()
 			for i, otherInst := range instances {
 				if otherInst == inst {
@@ -583,6 +587,9 @@ func ValidateAndExecuteDirectives(cdyfile Input, inst *Instance, justValidate bo
 	// If parsing only inst will be nil, create an instance for this function call only.
 	if justValidate {
 		inst = &Instance{serverType: cdyfile.ServerType(), wg: new(sync.WaitGroup), Storage: make(map[interface{}]interface{})}
+		// validation must not leave the event hooks that directives register behind
+		oldEventHooks := cloneEventHooks()
+		defer restoreEventHooks(oldEventHooks)
 	}
 
 	stypeName := cdyfile.ServerType()
